@@ -19,7 +19,7 @@ func TestVerifC15(t *testing.T) {
 			bs := jmpWithRdx(to)
 			out.Put(op.Idx, "bytes=%s %s", vh.Hex(bs), vh.RunA64(bs, uint64(from)))
 		case "arm64.stubctx":
-			bs := jmpWithRdxAndCtx(to, from, from)
+			bs := jmpWithRdxAndCtx(to, from, ^from)
 			out.Put(op.Idx, "bytes=%s %s", vh.Hex(bs), vh.RunA64(bs, uint64(from)))
 		}
 	}
